@@ -249,8 +249,14 @@ def check_case(acc, case):
         except Exception:
             off = None
     want_order = gen if gen is not None else (terms if cluster == "none" else None)
-    if not dup and want_order is not None and [str(k) for k, _ in ti_list] != [str(t) for t in want_order]:
-        acc.fail("C10.terms.partition", "term-order" + sfx, W(part_src if cluster == "none" else f"assert [str(t) for t in ms.term_indices] == {[str(t) for t in want_order]!r}  # order in which the columns are generated"),
+    # (the position of a term that owns no column is not observable from the labels, so only the relative order of
+    # the column-owning terms is judged; every term must still be a key)
+    nonempty = {str(k) for k, v in ti_list if v}
+    got_order = [str(k) for k, v in ti_list if v]
+    if not dup and want_order is not None and (
+        got_order != [str(t) for t in want_order if str(t) in nonempty] or {str(k) for k, _ in ti_list} != {str(t) for t in want_order}
+    ):
+        acc.fail("C10.terms.partition", "term-order" + sfx, W(f"assert [str(t) for t, v in ms.term_indices.items() if v] == {[str(t) for t in (want_order or []) if str(t) in nonempty]!r}  # column-owning terms in the order their columns are generated"),
                  f"{[str(k) for k, _ in ti_list]} vs generation order {[str(t) for t in want_order]}")
     if gen is not None and [str(t) for t in gen] != [str(t) for t in terms]:
         acc.case((repr(spec), ordering, dkey, output, "clustering-permutes-terms"), True)
